@@ -415,7 +415,11 @@ def check(c):
     ndeep = len(cases)
     cases += deep_cases(rng, audios, 2)
     ndeep = len(cases) - ndeep
-    cases += [gen_case(rng, audios) for _ in range(ncases)]
+    for _ in range(ncases):
+        cs = gen_case(rng, audios)
+        if rng.chance(0.4):
+            cs = m.aim_case(rng, cs, audios, stats)
+        cases.append(cs)
     if c.tier == "thorough":
         # more deep reads: the generated grammars with wide beams, whole audio, list read to exhaustion (cap 6000)
         for _ in range(25):
